@@ -71,4 +71,58 @@ def CEv.notSet : CEv → Prop
   | .setOffset _ => False
   | _ => True
 
+
+/-! ### the API as the application sees it: `Offset()`, the no-op rule of `SetOffset`, the lazy start
+
+reader.go: `SetOffset(o)` does nothing when `o == r.offset`; otherwise `r.offset = o` and, if a fetcher was ever started
+(`r.version != 0`), `r.start`.  `FetchMessage` starts the first fetcher at `r.offset` when `r.version == 0`, then receives;
+a message of the current version sets `r.offset = m.Offset + 1`. -/
+
+structure AS where
+  c : CS := {}
+  pos : Int            -- r.offset, what `Reader.Offset()` returns
+
+inductive AEv
+  | setOffset (o : Int)
+  | env (t : Nat) (x : Env)
+  | fetch
+  deriving Repr
+
+def astep (cfg : RCfg) (items : List Item) (a : AS) : AEv → Option (AS × Option Rec)
+  | .setOffset o =>
+    if o = a.pos then some (a, none)
+    else if a.c.fs.version = 0 then some ({ a with pos := o }, none)
+    else match cstep cfg items a.c (.setOffset o) with
+      | none => none
+      | some (c', _) => some ({ c := c', pos := o }, none)
+  | .env t x =>
+    match cstep cfg items a.c (.env t x) with
+    | none => none
+    | some (c', _) => some ({ a with c := c' }, none)
+  | .fetch =>
+    -- the locked section of FetchMessage (lazy start) and the receive from r.msgs are two steps
+    if a.c.fs.version = 0 then
+      match cstep cfg items a.c (.setOffset a.pos) with
+      | none => none
+      | some (c', _) => some ({ a with c := c' }, none)
+    else
+      match cstep cfg items a.c .fetch with
+      | none => none
+      | some (c2, m) => some ({ c := c2, pos := match m with | some r => r.1 + 1 | none => a.pos }, m)
+
+def arun (cfg : RCfg) (items : List Item) : AS → List AEv → Option (AS × List Rec)
+  | a, [] => some (a, [])
+  | a, e :: es =>
+    match astep cfg items a e with
+    | none => none
+    | some (a', m) =>
+      match arun cfg items a' es with
+      | none => none
+      | some (a'', ms) => some (a'', (match m with | some r => [r] | none => []) ++ ms)
+
+def AEv.ok (items : List Item) : AEv → Prop
+  | .setOffset o => -2 ≤ o ∧ o ≠ -1
+  | .env _ x => x.ok items
+  | .fetch => True
+
 end KV.C02
